@@ -1,4 +1,13 @@
-pub mod num;
-pub mod lex;
+//! gomini: lexer, parser, static checker and interpreter for the subset of Go
+//! emitted by the goml compiler. See README.md.
+
 pub mod ast;
+pub mod consts;
+pub mod lex;
+pub mod num;
 pub mod parse;
+pub mod types;
+pub mod vet;
+
+pub use parse::ParseError;
+pub use vet::{VetError, VetReport};
